@@ -646,6 +646,8 @@ def sum_parts(k):
         return k[2], k[3]
     if k[0] == "call" and k[1] == "core::ops::arith::Add::add" and len(k[3]) == 2:
         return k[3][0], k[3][1]
+    if k[0] == "call" and k[1].split("::")[-1] in ("saturating_add", "wrapping_add", "unchecked_add") and len(k[3]) == 2:
+        return k[3][0], k[3][1]
     return None
 
 
